@@ -40,7 +40,7 @@
 (*        Permanent), ivs |-> what the policy yielded during Retry (Stop included),           *)
 (*        paced |-> every pause between two calls of f lasted at least the yielded interval]  *)
 (* st  = [cancelled, der |-> whether a derived instance exists]  (a Policy offers no getters) *)
-EXTENDS Integers, Sequences, FiniteSets, TLC
+EXTENDS Integers, Sequences, FiniteSets, TLC, Json
 
 CONSTANTS Scope,      \* "mc" | "lts" | "trace"
           MaxCalls    \* exploration bound: NextBackOff calls per instance
@@ -105,7 +105,14 @@ AllCfgs == {
   P(33, "exp",   5, 3, "ns",   FALSE, <<MI(9)>>)
 }
 LtsSkip == {7, 14, 17, 23, 30, 33}     \* variations that add nothing structurally new: exhaustive run and traces only
-Cfgs == IF Scope = "lts" THEN {c \in AllCfgs : c.id \notin LtsSkip} ELSE AllCfgs
+(* trace validation: the recorder composes policies at random from the same vocabulary; the configurations *)
+(* are taken from the reset lines of the recorded file (lib/flows.py puts it next to the module)             *)
+RecordedCfgs(file) == LET t == ndJsonDeserialize(file) IN {t[i].cfg : i \in {j \in 1..Len(t) : t[j].op = "reset"}}
+Cfgs == CASE Scope = "lts"   -> {c \in AllCfgs : c.id \notin LtsSkip}
+          [] Scope = "trace" -> RecordedCfgs("trace.ndjson")
+          [] OTHER           -> AllCfgs
+ValidCfg(c) == /\ c.base \in {"zero", "const", "exp"} /\ c.unit \in {"ns", "tick", "huge"} /\ c.init >= 0 /\ c.fnum >= 1
+               /\ \A i \in 1..Len(c.opts) : c.opts[i].k \in {"maxRetries", "maxInterval", "jitter", "timeout", "cancel"}
 
 NOpts == Len(cfg.opts)
 Has(k) == \E i \in 1..NOpts : cfg.opts[i].k = k
@@ -219,7 +226,7 @@ Spec == Init /\ [][Next]_vars
 
 (* ----------------------------- the contract, on the model ----------------------------- *)
 IsInst(p) == p[1] \in Nat /\ p[2] \in Nat /\ Len(p[3]) = NOpts
-TypeOK == /\ IsInst(orig) /\ (der # <<>> => IsInst(der)) /\ cancelled \in BOOLEAN
+TypeOK == /\ ValidCfg(cfg) /\ IsInst(orig) /\ (der # <<>> => IsInst(der)) /\ cancelled \in BOOLEAN
           /\ stopped \subseteq Insts
 (* what NextBackOff answers is Stop, the deadline cut, or a non-negative interval *)
 Interval == ev.op = "Next" => (ev.res.v >= 0 \/ ev.res.v \in {Stop, Trunc})
